@@ -593,6 +593,8 @@ def run(ck):
         Ei_, nui_ = rng.uniform(1.0, 900.0), rng.uniform(-0.5, 0.45)
         e_ = rng.uniform(0.05, 0.8) if k % 2 == 0 else rng.uniform(1.25, 25.0)
         nrm = [(0.0, 0.0, 1.0), (1.0, 0.0, 0.0), (0.0, 1.0, 0.0)][k % 3] if k < 6 else tuple(rng.uniform(-1, 1) for _ in range(3))
+        if k < 6:      # directed: mildly and strongly oblate / prolate inclusions along each frame axis
+            e_ = [0.3, 1.3, 0.75, 4.0, 0.1, 1.26][k]
         nreq.append(("axiP", (E_, nu_) + nrm + (e_,)))
         nreq.append(("axiA", (E_, nu_, Ei_, nui_) + nrm + (e_,)))
     pn = ck.run([num], input="".join("%s %s\n" % (op, " ".join(repr(float(x)) for x in a)) for op, a in nreq), timeout=900)
